@@ -298,4 +298,16 @@ func init() {
 		WantProbes:  []string{"connect", "readdressed-datagram", "stale-datagram", "forged-other-conversation", "unknown-address-valid", "unknown-address-noise", "foreign-source-to-dialled", "reconnect-same-address", "acceptor-stall"},
 		nontrivial:  func(r *proto.RunResult, nf int) bool { return r.Progress && nf > 0 },
 	}
+	plans["C06"] = &propPlan{
+		Level: "exploration",
+		Items: []planItem{
+			{Scenario: "corrupt", Stratum: "", Quick: 500, Thorough: 20000, PerJob: 4},
+		},
+		QuickBudget: 70 * time.Second, ThoroughBudget: 25 * time.Minute,
+		Rule: "evaluations = seeded simulated runs (every cipher except nil, FEC on and off, listener and dialled paths, the full fault swarm), each with 5-155 injections at seeded quiescent points: a genuine datagram captured from the traffic towards the target socket (data, parity, ACK-only, probes) is corrupted in a way the check is guaranteed to catch - AEAD: 1-4 bit flips anywhere, the tag altered, truncation; CRC ciphers: decrypted with the harness's own cipher, an error burst of 1..32 bits inside the CRC-covered bytes or an altered CRC field, re-encrypted - or a too-short / random datagram is built (the harness's decoder must agree that it fails; samples that pass by 2^-32 chance are discarded), claimed to come from the real peer or from an unknown address. Before and after the injection (no clock advance, quiescence in between) a reflection walk hashes every field of every session and of the listener per field path, and the SNMP counters are read: everything must be identical except InCsumErrors (+1 when the datagram is long enough to be checked); no datagram may be emitted, no call return, no session appear. Non-trivial = at least 3 corrupted datagrams were injected and payload was delivered; distinct = distinct event-log hashes",
+		Real: realSession, Stub: stubSession,
+		Assumptions: append([]string{"the snapshot skips channels, funcs, sync primitives, timers and the interfaces holding transport, cipher and codec objects (their internals are scratch or foreign); everything else reachable from a session or the listener is compared"}, assumeCommon...),
+		WantProbes: []string{"corrupted:data/burst", "corrupted:parity/burst", "corrupted:ack/burst", "corrupted:short", "corrupted:noise", "corrupted-datagrams-injected"},
+		nontrivial: func(r *proto.RunResult, nf int) bool { return r.Progress && r.Probes["corrupted-datagrams-injected"] >= 3 },
+	}
 }
